@@ -158,6 +158,11 @@ func (d *FormatDecoder) Next() (interface{}, error) {
 		}
 		return nil, err
 	}
+	// The size covers the 16 byte header itself. Anything smaller is corrupt and
+	// must not be used in the size calculations below.
+	if hdr.Size < 16 {
+		return nil, InvalidFormat{"element size smaller than its header"}
+	}
 	switch hdr.Type {
 	case CaFormatEntry:
 		if hdr.Size != 64 {
@@ -195,57 +200,45 @@ func (d *FormatDecoder) Next() (interface{}, error) {
 		return e, nil
 
 	case CaFormatUser:
-		b := make([]byte, hdr.Size-16)
-		if _, err = io.ReadFull(d.r, b); err != nil {
+		b, err := d.r.ReadString(hdr.Size - 16)
+		if err != nil {
 			return nil, err
 		}
-		// Strip off the 0 byte
-		b = b[:len(b)-1]
 		return FormatUser{FormatHeader: hdr, Name: string(b)}, nil
 
 	case CaFormatGroup:
-		b := make([]byte, hdr.Size-16)
-		if _, err = io.ReadFull(d.r, b); err != nil {
+		b, err := d.r.ReadString(hdr.Size - 16)
+		if err != nil {
 			return nil, err
 		}
-		// Strip off the 0 byte
-		b = b[:len(b)-1]
 		return FormatGroup{FormatHeader: hdr, Name: string(b)}, nil
 
 	case CaFormatXAttr:
-		b := make([]byte, hdr.Size-16)
-		if _, err = io.ReadFull(d.r, b); err != nil {
+		b, err := d.r.ReadString(hdr.Size - 16)
+		if err != nil {
 			return nil, err
 		}
-		// Strip off the 0 byte
-		b = b[:len(b)-1]
 		return FormatXAttr{FormatHeader: hdr, NameAndValue: string(b)}, nil
 
 	case CaFormatSELinux:
-		b := make([]byte, hdr.Size-16)
-		if _, err = io.ReadFull(d.r, b); err != nil {
+		b, err := d.r.ReadString(hdr.Size - 16)
+		if err != nil {
 			return nil, err
 		}
-		// Strip off the 0 byte
-		b = b[:len(b)-1]
 		return FormatSELinux{FormatHeader: hdr, Label: string(b)}, nil
 
 	case CaFormatFilename:
-		b := make([]byte, hdr.Size-16)
-		if _, err = io.ReadFull(d.r, b); err != nil {
+		b, err := d.r.ReadString(hdr.Size - 16)
+		if err != nil {
 			return nil, err
 		}
-		// Strip off the 0 byte
-		b = b[:len(b)-1]
 		return FormatFilename{FormatHeader: hdr, Name: string(b)}, nil
 
 	case CaFormatSymlink:
-		b := make([]byte, hdr.Size-16)
-		if _, err = io.ReadFull(d.r, b); err != nil {
+		b, err := d.r.ReadString(hdr.Size - 16)
+		if err != nil {
 			return nil, err
 		}
-		// Strip off the 0 byte
-		b = b[:len(b)-1]
 		return FormatSymlink{FormatHeader: hdr, Target: string(b)}, nil
 
 	case CaFormatDevice:
@@ -272,8 +265,8 @@ func (d *FormatDecoder) Next() (interface{}, error) {
 		return FormatPayload{FormatHeader: hdr, Data: r}, nil
 
 	case CaFormatFCaps:
-		b := make([]byte, hdr.Size-16)
-		if _, err = io.ReadFull(d.r, b); err != nil {
+		b, err := d.r.ReadN(hdr.Size - 16)
+		if err != nil {
 			return nil, err
 		}
 		return FormatFCaps{FormatHeader: hdr, Data: b}, nil
@@ -288,12 +281,13 @@ func (d *FormatDecoder) Next() (interface{}, error) {
 		if err != nil {
 			return nil, err
 		}
-		b := make([]byte, hdr.Size-32)
-		if _, err = io.ReadFull(d.r, b); err != nil {
+		if hdr.Size < 32 {
+			return nil, InvalidFormat{"element size smaller than its header"}
+		}
+		b, err := d.r.ReadString(hdr.Size - 32)
+		if err != nil {
 			return nil, err
 		}
-		// Strip off the 0 byte
-		b = b[:len(b)-1]
 		e.Name = string(b)
 		return e, nil
 
@@ -307,16 +301,20 @@ func (d *FormatDecoder) Next() (interface{}, error) {
 		if err != nil {
 			return nil, err
 		}
-		b := make([]byte, hdr.Size-32)
-		if _, err = io.ReadFull(d.r, b); err != nil {
+		if hdr.Size < 32 {
+			return nil, InvalidFormat{"element size smaller than its header"}
+		}
+		b, err := d.r.ReadString(hdr.Size - 32)
+		if err != nil {
 			return nil, err
 		}
-		// Strip off the 0 byte
-		b = b[:len(b)-1]
 		e.Name = string(b)
 		return e, nil
 
 	case CaFormatACLGroupObj:
+		if hdr.Size != 24 {
+			return nil, InvalidFormat{}
+		}
 		e := FormatACLGroupObj{FormatHeader: hdr}
 		e.Permissions, err = d.r.ReadUint64()
 		if err != nil {
@@ -325,6 +323,9 @@ func (d *FormatDecoder) Next() (interface{}, error) {
 		return e, nil
 
 	case CaFormatACLDefault:
+		if hdr.Size != 48 {
+			return nil, InvalidFormat{}
+		}
 		e := FormatACLDefault{FormatHeader: hdr}
 		e.UserObjPermissions, err = d.r.ReadUint64()
 		if err != nil {
@@ -345,23 +346,30 @@ func (d *FormatDecoder) Next() (interface{}, error) {
 		return e, nil
 
 	case CaFormatGoodbye:
-		n := (hdr.Size - 16) / 24
-		items := make([]FormatGoodbyeItem, n)
-		e := FormatGoodbye{FormatHeader: hdr, Items: items}
-		for i := uint64(0); i < n; i++ {
-			items[i].Offset, err = d.r.ReadUint64()
-			if err != nil {
-				return nil, err
-			}
-			items[i].Size, err = d.r.ReadUint64()
-			if err != nil {
-				return nil, err
-			}
-			items[i].Hash, err = d.r.ReadUint64()
-			if err != nil {
-				return nil, err
-			}
+		if (hdr.Size-16)%24 != 0 {
+			return nil, InvalidFormat{"goodbye size is not a multiple of the item size"}
 		}
+		n := (hdr.Size - 16) / 24
+		// Grow the list as items are read, the count comes from the input
+		// and can't be trusted for an up-front allocation.
+		var items []FormatGoodbyeItem
+		for i := uint64(0); i < n; i++ {
+			var item FormatGoodbyeItem
+			item.Offset, err = d.r.ReadUint64()
+			if err != nil {
+				return nil, err
+			}
+			item.Size, err = d.r.ReadUint64()
+			if err != nil {
+				return nil, err
+			}
+			item.Hash, err = d.r.ReadUint64()
+			if err != nil {
+				return nil, err
+			}
+			items = append(items, item)
+		}
+		e := FormatGoodbye{FormatHeader: hdr, Items: items}
 		// Ensure we have the tail marker in the last item
 		if len(items) < 1 || items[len(items)-1].Hash != CaFormatGoodbyeTailMarker {
 			return nil, InvalidFormat{"tail marker not found"}
@@ -369,6 +377,9 @@ func (d *FormatDecoder) Next() (interface{}, error) {
 		return e, nil
 
 	case CaFormatIndex:
+		if hdr.Size != 48 {
+			return nil, InvalidFormat{}
+		}
 		e := FormatIndex{FormatHeader: hdr}
 		e.FeatureFlags, err = d.r.ReadUint64()
 		if err != nil {
